@@ -168,7 +168,23 @@ def layout(pl, rng, p_sub=0.35, p_ignore=0.12, p_dup=0.12, p_second=0.1):
             gdir = g
             parent = mfile(g)
         pl.manifests[parent].append({'tag': 'MANIFEST', 'path': rel(mp, gdir), 'target': mp, 'hashes': rng.choice(HASHSETS[1:])})
+        if rng.random() < getattr(pl, 'p_dup_manifest', 0.08):
+            # a second MANIFEST line for the same sub-Manifest: in the same Manifest, or in one further up
+            ups = [g2 for g2 in mdirs if g2 != d and (g2 == '' or d.startswith(g2 + '/'))]
+            g2 = rng.choice(ups) if ups else gdir
+            e2 = {'tag': 'MANIFEST', 'path': rel(mp, g2), 'target': mp, 'hashes': rng.choice(HASHSETS[1:]), 'dup': 'manifest-twice'}
+            pl.manifests[mfile(g2)].append(e2)
+            pl.notes.append('dup:manifest-twice')
     # decorations
+    if rng.random() < 0.15:
+        # a DIST entry named like a listed file of the same Manifest (a local copy of a distfile)
+        cands = [(mp, e) for mp, es in pl.manifests.items() for e in es
+                 if e['tag'] in ('DATA', 'MISC', 'EBUILD') and '/' not in e['path'] and not e.get('dup')
+                 and all(32 < ord(c) < 127 and c != '\\' for c in e['path'])]
+        if cands:
+            mp, e = rng.choice(sorted(cands, key=lambda x: (x[0], x[1]['path'])))
+            pl.manifests[mp].append({'tag': 'DIST', 'path': e['path'], 'size': 7, 'cks': {'SHA1': 'ee'}})
+            pl.notes.append('dist-twin')
     if rng.random() < 0.3:
         pl.manifests[pl.top].append({'tag': 'TIMESTAMP', 'ts': '2017-10-22T18:06:41Z'})
     if rng.random() < 0.3:
@@ -249,7 +265,8 @@ def mutate_tree(pl, rng, root):
     whether a whole-tree verification must now report a mismatch (None = not decided by construction)"""
     lf = [p for p in listed_files(pl) if os.path.isfile(os.path.join(root, p)) and not os.path.islink(os.path.join(root, p))]
     kinds = ['content-same-size', 'content-other-size', 'delete', 'stray', 'stray-hidden', 'stray-in-ignored', 'retype-dir',
-             'retype-fifo', 'retype-dangling', 'touch', 'stray-dir-with-file', 'stray-lookalike', 'stray-named-like-top-manifest']
+             'retype-fifo', 'retype-dangling', 'touch', 'stray-dir-with-file', 'stray-lookalike', 'stray-named-like-top-manifest',
+             'delete-dir']
     k = rng.choice(kinds)
     def visible(p):
         return not is_hidden_path(p) and not any(p == i or p.startswith(i + '/') for i in pl.ignored)
@@ -290,6 +307,20 @@ def mutate_tree(pl, rng, root):
             os.symlink('no-such-target', fp)
         return (k, p, True)
     dirs = sorted(d for d in pl.dirs if os.path.isdir(os.path.join(root, d)))
+    if k == 'delete-dir':
+        # a whole directory with listed files vanishes: its entries are met only in the pass over unvisited directories
+        cands = sorted(set(os.path.dirname(p) for p in lf if os.path.dirname(p) and visible(p)
+                           and not os.path.basename(p).startswith('Manifest')))
+        cands = [c for c in cands if os.path.isdir(os.path.join(root, c)) and not os.path.islink(os.path.join(root, c))
+                 and not any(m.startswith(c + '/') for m in pl.manifests)]
+        if not cands:
+            return None
+        dd = rng.choice(cands)
+        inside = sorted(p for p in lf if p.startswith(dd + '/') and visible(p))
+        import shutil
+        shutil.rmtree(os.path.join(root, dd))
+        pl.last_deleted_dir = dd
+        return (k, inside[0], True) if inside else None
     d = rng.choice(dirs)
     if k == 'stray':
         nm = 'stray-' + str(rng.randint(0, 99))
@@ -327,7 +358,8 @@ def mutate_tree(pl, rng, root):
             return None
         i = rng.choice(sorted(pl.ignored))
         p = i + rng.choice(['x', '2', '.bak', ' '])
-        if os.path.lexists(os.path.join(root, p)) or not visible(os.path.dirname(p) or 'v'):
+        if os.path.lexists(os.path.join(root, p)) or not visible(os.path.dirname(p) or 'v') \
+                or not os.path.isdir(os.path.dirname(os.path.join(root, p))):
             return None
         open(os.path.join(root, p), 'wb').write(b'lookalike')
         return (k, p, True if visible(p) else False)
